@@ -352,3 +352,35 @@ M("C06", "exception-means-valid", "admin/certificate_v1.py",
 M("C06", "failing-name-is-target", "admin/certificate_v1.py",
   "                    result[target] = (False, current.name)",
   "                    result[target] = (False, target)")
+
+# ---- C07
+M("C07", "validity-check-dropped", "admin/certificate_v2.py",
+  "            if subject.not_valid_before_utc > now or subject.not_valid_after_utc < now:\n                return False",
+  "            if subject.not_valid_before_utc > now:\n                return False")
+M("C07", "report-data-compare-shortened-quote", "admin/certificate_v2.py",
+  "            if expected != self.message.report_body.report_data.field[:len(expected)]:",
+  "            if expected[:31] != self.message.report_body.report_data.field[:31]:")
+M("C07", "report-data-check-skipped-att", "admin/certificate_v2.py",
+  "            if expected != self.message.report_data.field[:len(expected)]:\n                return False",
+  "            if expected != self.message.report_data.field[:len(expected)]:\n                pass")
+M("C07", "issuer-check-own-key", "admin/certificate_v2.py",
+  "            issuer = certifier.certificate\n",
+  "            issuer = certifier.certificate if certifier.signed_by != certifier.name else subject\n            issuer = subject if subject.issuer == subject.subject else issuer\n")
+M("C07", "certifier-type-check-removed", "admin/certificate_v2.py",
+  "            if not isinstance(certifier, type(self)):\n                return False",
+  "            if not isinstance(certifier, type(self)):\n                return True")
+M("C07", "att-key-hash-without-auth-data", "admin/certificate_v2.py",
+  "            expected = hashlib.sha256(self.key.to_string() + self._auth_data).digest()",
+  "            expected = hashlib.sha256(self.key.to_string() + self._auth_data[:64]).digest()")
+M("C07", "quote-hash-truncated-message", "admin/certificate_v2.py",
+  "                self._signature,\n                hashlib.sha256(self._message).digest(),\n                ecdsa.util.sigdecode_der,\n            )\n        except Exception:\n            return False\n\n    def get_value(self):",
+  "                self._signature,\n                hashlib.sha256(self._message[:432]).digest(),\n                ecdsa.util.sigdecode_der,\n            )\n        except Exception:\n            return False\n\n    def get_value(self):")
+M("C07", "report-data-offset-shift", "sgx/envelope.py",
+  "    uint8_t reserved4 42\n    uint8_t isvfamilyid 16\n    sgx_report_data_t report_data",
+  "    uint8_t reserved4 41\n    uint8_t isvfamilyid 16\n    sgx_report_data_t report_data")
+M("C07", "custom-data-value-from-message", "admin/certificate_v2.py",
+  "            \"sgx_quote\": self.message,\n            \"message\": self.custom_data,",
+  "            \"sgx_quote\": self.message,\n            \"message\": self._message[368:400].hex(),")
+M("C07", "verify-exception-true", "admin/certificate_v2.py",
+  "                ec.ECDSA(subject.signature_hash_algorithm)\n            )\n\n            return True\n\n        except Exception:\n            return False",
+  "                ec.ECDSA(subject.signature_hash_algorithm)\n            )\n\n            return True\n\n        except ValueError:\n            return True\n        except Exception:\n            return False")
